@@ -5,7 +5,8 @@
 Require Import ZArith List.
 Import ListNotations.
 Local Open Scope Z_scope.
-From EphVerif Require Import lib.Bytes model.ControlModel proofs.ControlProofs gen.Constants_control.
+From EphVerif Require Import lib.Bytes model.Sha256Model model.PowModel model.FilenameModel model.ControlModel proofs.ControlProofs
+  proofs.PowProofs gen.Constants_control gen.Constants_pow.
 
 (* without a configured control token the limiter key is the client address, whatever TOKEN header is sent *)
 Theorem c28_identity_ignores_client_token : forall remote p q, rate_identity None remote p = rate_identity None remote q.
@@ -24,6 +25,56 @@ Theorem c28_limiter : forall w limit P now now', 0 <= w -> now <= now' ->
   (ok = false -> limit <= zlen (filter (in_window w now') P)).
 Proof. exact limiter_step. Qed.
 Print Assumptions c28_limiter.
+
+(* ---- admission of one STORE (parse_request's length check, then handle_store's TTL and PoW checks) ---- *)
+(* code 0 = OK_STORE.  An accepted STORE declared a length that parses, is within the cap and is covered by the body; its TTL
+   (given or default) lies in the configured window; and with PoW enabled it carried a nonce that the validator accepts for
+   (SHA-256 of the payload, payload size, sanitised PATH) *)
+Theorem c28_accept_sound : forall cfg declared body ttl path pow,
+  store_admission cfg declared body ttl path pow = 0 ->
+  exists s n, declared = Some s /\ parse_u64 s = Some n /\ n <= sc_cap cfg /\ n <= zlen body /\
+    let payload := firstn (Z.to_nat n) body in
+    (exists t, (match ttl with
+                | None => t = sc_default_ttl cfg
+                | Some ts => exists v, parse_u64 ts = Some v /\ t = (if v <? 9223372036854775808 then v else v - 18446744073709551616)
+                end) /\ sc_min_ttl cfg <= t <= sc_max_ttl cfg) /\
+    (sc_pow cfg <= 0 \/
+     exists ps nonce, pow = Some ps /\ parse_u64 ps = Some nonce /\
+       store_pow_valid (sha256 payload) (zlen payload)
+         (match path with Some p => hint_sanitize p | None => [] end) nonce (sc_pow cfg) = true).
+Proof. exact store_accept_sound. Qed.
+Print Assumptions c28_accept_sound.
+
+(* what the validator demands (C19): min(d, 24) leading zero bits of SHA-256 over the store preimage *)
+Theorem c28_pow_validator : forall cid size fname nonce d,
+  store_pow_valid cid size fname nonce d = true <->
+  d = 0 \/ Z.min d max_store_pow_difficulty <= clz (Sha256Spec.hash (store_preimage cid size fname nonce)).
+Proof. exact store_valid_iff. Qed.
+
+(* a declared length above the cap is refused with the same answer whatever follows: the body is not read *)
+Theorem c28_oversize_refused_before_body : forall cfg s n body body' ttl path pow ttl' path' pow',
+  parse_u64 s = Some n -> sc_cap cfg < n ->
+  store_admission cfg (Some s) body ttl path pow = 2 /\
+  store_admission cfg (Some s) body ttl path pow = store_admission cfg (Some s) body' ttl' path' pow'.
+Proof. exact oversize_refused_before_body. Qed.
+
+Theorem c28_pow_required : forall cfg declared body ttl path pow,
+  0 < sc_pow cfg -> store_admission cfg declared body ttl path pow = 0 -> pow <> None.
+Proof. exact store_pow_enforced. Qed.
+
+Theorem c28_length_header : forall s v, parse_u64 s = Some v ->
+  s <> [] /\ forallb is_digit s = true /\ 0 <= v < 18446744073709551616 /\ digits_value 0 s = Some v.
+Proof. exact parse_u64_sound. Qed.
+
+(* non-vacuity: a 3-byte STORE at difficulty 0 is admitted; the same one at difficulty 9 without a nonce is not; 17 bytes
+   declared against a cap of 16 is refused although no body byte is there *)
+Example c28_admission_example :
+  let cfg0 := mkStoreCfg 0 30 21600 600 16 in let cfg9 := mkStoreCfg 9 30 21600 600 16 in
+  (store_admission cfg0 (Some [51]) [1; 2; 3] (Some [54; 48]) None None,
+   store_admission cfg9 (Some [51]) [1; 2; 3] None None None,
+   store_admission cfg0 (Some [49; 55]) [] None None None,
+   store_admission cfg0 (Some [51]) [1; 2; 3] (Some [50; 57]) None None) = (0, 7, 2, 6).
+Proof. vm_compute. reflexivity. Qed.
 
 Theorem c28_constants : store_rate_window = 30 /\ store_rate_limit = 6 /\ fetch_rate_window = 30 /\ fetch_rate_limit = 12.
 Proof. exact limiter_constants. Qed.
